@@ -65,14 +65,16 @@ theorem trace_eq (a : Arch) (prog : List Bits) (s : VmState) (h : RtlState) (ps 
       obtain ⟨sk, hk', r1, r2⟩ := ih hr k (by simpa using hk)
       exact ⟨sk, hk', r1, by simpa using r2⟩
 
-/-- Enabling the hardware optimisation derived from the program never changes behaviour: with the
-    register sets the assembler records for the program (`destRegs`), the pruned processor does in
-    every clock exactly what the unpruned one does, in every state whose pc is inside the program
-    and for every port stimulus. -/
-theorem onlyDestRegs_sound (a : Arch) (prog : List Bits) (s : RtlState) (p : PortsIn)
+/-- Enabling the hardware optimisation derived from the program never changes behaviour: with any
+    register sets that contain what the assembler records for the program (`destRegs`; the
+    generator keeps every arm when nothing was recorded for an opcode), the pruned processor does
+    in every clock exactly what the unpruned one does, in every state whose pc is inside the
+    program and for every port stimulus. -/
+theorem onlyDestRegs_sound (a : Arch) (prog : List Bits) (used : String → List Nat) (s : RtlState) (p : PortsIn)
+    (hused : ∀ op k, k ∈ Rtl.destRegs a prog op → k ∈ used op)
     (hws : a.wordSize = 0) (hlen : ∀ w ∈ prog, w.length = a.maxWord) (hpc : s.pc < prog.length) :
-    Rtl.cycleOpt a (Rtl.destRegs a prog) prog s p = Rtl.cycle a prog s p :=
-  onlyDestRegs_sound' a prog s p hws hlen hpc
+    Rtl.cycleOpt a used prog s p = Rtl.cycle a prog s p :=
+  onlyDestRegs_sound' a prog used s p hused hws hlen hpc
 
 /-! ### non-vacuity: a concrete machine and program satisfy every hypothesis, step after step -/
 
